@@ -231,9 +231,13 @@ func cmdCheck(args []string) int {
 	var gnames []string
 	coverSat := map[string]bool{}
 	coverAll := map[string]bool{}
+	var deadPaths []string
 	for i, ob := range mine {
 		if ob.Kind == "cover" {
 			coverAll[ob.Fn] = true
+			if ob.Result == "unsat" {
+				deadPaths = append(deadPaths, ob.Fn+": return path never reached under the precondition ["+strings.Join(ob.Path, " ; ")+"]")
+			}
 			if ob.Result == "sat" || ob.Result == "unknown" || ob.Result == "timeout" {
 				// unknown: quantified context, not refuted -- accepted as "not shown vacuous"
 				coverSat[ob.Fn] = true
@@ -421,6 +425,7 @@ func cmdCheck(args []string) int {
 			"contract_files":           db.Files,
 			"timeout_s":                timeout,
 			"cover_checks":             len(coverAll),
+			"unreachable_return_paths": deadPaths,
 			"cover_reachable":          len(coverSat),
 		},
 		"assumptions": assumptions,
@@ -452,6 +457,9 @@ func cmdCheck(args []string) int {
 		}
 		for _, g := range gaps {
 			fmt.Println("  gap:", g)
+		}
+		for _, d := range deadPaths {
+			fmt.Println("  dead:", d)
 		}
 	}
 	if violations > 0 {
